@@ -14,9 +14,13 @@ size, every similarity oracle, every option set with `F > 0`:
 Hypotheses = the C01 domain as the model sees it: ids of each document distinct, the two id sets disjoint and
 below the first fresh id (ids stand for Python object identity), attribute names of a right node distinct, comments
 of the right document carry the empty tag (lxml: `Comment`), both roots of the same kind (elements).
-`scriptGen … = .ok …` says that the differ did not raise.  Namespace prefixes are not modelled.
+That the differ does not raise is proved as well (`Proofs/Anc.lean`, `Prog.lean` … `Prog3.lean`: no path lookup
+fails, `find_pos` finds the partner of the in-order sibling and its parent, a node is never moved into its own
+subtree, the delete phase finds every node it deletes), so the last two theorems have no "whenever the differ
+completes" hypothesis.  Namespace prefixes are not modelled.
 -/
 import XmlDiffModel.Proofs.Chaw6
+import XmlDiffModel.Proofs.Prog3
 import XmlDiffModel.Proofs.Patch
 import XmlDiffModel.Props.C07
 
@@ -104,6 +108,27 @@ theorem C01_diff_then_patch (sim : Sim) (hF : 0 < cfg.F) (hL : L.WF) (hR : R.WF)
     (∃ nx, runShipped qn ⟨L, fresh⟩ script = .ok ⟨final, nx⟩) ∧ docEq cfg.ignored final R :=
   C01_script_reaches_right qn cfg L R fresh script final _ hL hR hdisj hfL hfR
     (matchNodes_good cfg sim L R hF hL hR hroot) hA hC h
+
+/-- The differ does not raise: for every good matching script generation completes. -/
+theorem C01_differ_completes (M : List (Nat × Nat)) (hL : L.WF) (hR : R.WF) (hdisj : ∀ i ∈ ids L, i ∉ ids R)
+    (hfL : ∀ i ∈ ids L, i < fresh) (hfR : ∀ i ∈ ids R, i < fresh) (hM : GoodMatching L R M)
+    (hA : ∀ x ∈ Tree.bfs R, (keys x.payload.attrs).Nodup)
+    (hC : ∀ x ∈ Tree.bfs R, x.payload.kind = .comment → x.payload.tag = []) :
+    ∃ script final, scriptGen qn cfg L R M fresh = .ok (script, final) :=
+  scriptGen_total qn cfg L R M fresh hL hR hdisj hfL hfR hM hA hC
+
+/-- C01 in full for the model pipeline: diffing completes without error, patching the left document with the
+script completes without error, and the result equals the right document. -/
+theorem C01_roundtrip (sim : Sim) (hF : 0 < cfg.F) (hL : L.WF) (hR : R.WF) (hdisj : ∀ i ∈ ids L, i ∉ ids R)
+    (hfL : ∀ i ∈ ids L, i < fresh) (hfR : ∀ i ∈ ids R, i < fresh) (hroot : L.payload.kind = R.payload.kind)
+    (hA : ∀ x ∈ Tree.bfs R, (keys x.payload.attrs).Nodup)
+    (hC : ∀ x ∈ Tree.bfs R, x.payload.kind = .comment → x.payload.tag = []) :
+    ∃ script patched nx, scriptGen qn cfg L R (matchNodes cfg sim L R) fresh = .ok (script, patched) ∧
+      runShipped qn ⟨L, fresh⟩ script = .ok ⟨patched, nx⟩ ∧ docEq cfg.ignored patched R := by
+  have hM := matchNodes_good cfg sim L R hF hL hR hroot
+  obtain ⟨script, final, h⟩ := scriptGen_total qn cfg L R _ fresh hL hR hdisj hfL hfR hM hA hC
+  obtain ⟨⟨nx, hrun⟩, hd⟩ := C01_script_reaches_right qn cfg L R fresh script final _ hL hR hdisj hfL hfR hM hA hC h
+  exact ⟨script, final, nx, h, hrun, hd⟩
 
 /-- C03, the direction tests cannot settle: documents that differ (as values, up to attribute order and ignored
 attributes) never get an empty script. -/
